@@ -1,13 +1,13 @@
 SPECIFICATION Spec
 CONSTANTS
-  MaxH = 10
+  MaxH = 12
   Page = 3
   TSet = {0}
-  RUB = FALSE
-  MTB = 0
+  RUB = TRUE
+  MTB = 1
   GCP = 1
   MaxCrash = 2
-  MaxReset = 1
+  MaxReset = 0
   Dev = {}
 INVARIANTS AbsAnswers AbsTip AbsHeights AbsReset CanRestart NoDead MemCanonical RestartTransparent DiskPages
 CHECK_DEADLOCK FALSE
